@@ -154,8 +154,55 @@ def run : Handler := fun req => do
             if badKnown.isNone then badKnown := some (n, ct, want, got.variant)
           else
             if bad.isNone then bad := some (n, ct, want, got.variant)
+    -- second clause, WITHIN a status: an answer carrying a declared media type (bare or with a parameter) is given
+    -- the variant declared for that media type. Expected variant = the model's variant of that key whose payload
+    -- group contains the declaration; only canonical keys, only concrete media types.
+    let vsM := variantsOf responses
+    let mut badV : Option String := none
+    let mut badVKnown : Option String := none
+    if bad.isNone then
+      for (key, decls) in sortKeys responses do
+        if canonicalKey key && badV.isNone then
+          let tok := fromStr key
+          let ns := ((List.range 500).map (· + 100)).filter fun n => specKey keys n == key
+          match ns.head? with
+          | none => pure ()
+          | some n =>
+            for d in decls do
+              if !d.ct.contains '*' && (parseMedia d.ct).isSome then
+                -- (a media type declared without a schema belongs to no payload group: nothing is declared for it)
+                let gk := groupKey (resolveMedia tok d)
+                let wantV := if gk.isNone then none else vsM.find? fun v => v.tok == tok && v.schemaType == gk
+                match wantV with
+                | none => pure ()
+                | some wv =>
+                  for ct in [d.ct, d.ct ++ "; charset=utf-8".toList] do
+                    let got := evalChain ch n ct
+                    if got.variant != wv.name then
+                      let msg := s!"status {n} content-type {String.ofList ct}: declared under {String.ofList key} as variant {String.ofList wv.name}, parser picks {String.ofList got.variant}"
+                      -- explained only if the model gives the same answer AND two variants of this key are told apart
+                      -- by one and the same content check (same media category), or no check of the block hits
+                      let same := match modelChain with | some mch => evalChain mch n ct == got | none => false
+                      let mine := vsM.filter fun v => v.tok == tok
+                      let catsOf (v : Variant) : List Cat := (v.medias.map (·.cat)).eraseDups
+                      let dupCat := mine.any fun a => mine.any fun b => a.name != b.name && (catsOf a).any fun c => (catsOf b).contains c
+                      let miss := match modelChain with
+                        | some mch => mch.handlers.any fun (c, b) => evalCond n c && (match b with | .dispatch cs => (firstCase ct cs).isNone | _ => false)
+                        | none => false
+                      -- `default` with several variants: the fall-back arm decodes the FIRST one whatever the content type
+                      let dfltMany := isDefault tok && (vsM.filter fun v => isDefault v.tok).length > 1
+                      if same && (dfltMany || dupCat || miss) then
+                        if badVKnown.isNone then badVKnown := some ((if dfltMany then "F" else if dupCat then "D" else "M") ++ msg)
+                      else
+                        if badV.isNone then badV := some msg
+    match badV with
+    | some msg => return verdict false (if nonCanon then ["KnownNonCanonicalKey"] else []) msg
+    | none => pure ()
     match bad, badKnown with
-    | none, none => return verdict true []
+    | none, none =>
+      match badVKnown with
+      | some msg => return verdict false ((if nonCanon then ["KnownNonCanonicalKey"] else []) ++ [if msg.startsWith "F" then "KnownDefaultFirstVariantOnly" else if msg.startsWith "D" then "KnownSameCategoryVariants" else "KnownContentFallthrough"]) (msg.drop 1).toString
+      | none => return verdict true []
     | some (n, ct, want, gotv), _ =>
       let known := (if nonCanon then ["KnownNonCanonicalKey"] else [])
       return verdict false known s!"status {n} content-type {String.ofList ct}: expected a variant declared for key {String.ofList want}, parser picks {String.ofList gotv}"
